@@ -57,17 +57,28 @@ def _resolve_sliceable(conn: Sliceable) -> Sliceable:
     raise TypeError(f"Invalid attempt to resolve slicing on {conn}")
 
 
+def _selected(slize: Slice) -> range:
+    """The indices of `slize.parent` which `slize` selects, in selection order."""
+    if slize.step > 0:
+        return range(slize.bot, slize.top, slize.step)
+    return range(slize.top - 1, slize.bot - 1, slize.step)
+
+
 def _list_slice(slize: Slice) -> List[Slice]:
     """Internal recursive helper for `resolve_slice`.
     Returns a list of Slices in which each element has a concrete Signal for its parent."""
 
-    # Resolve "full-width" slices to their parent Signals
-    if width(slize) == width(slize.parent):
+    # Resolve "full-width" (and in-order) slices to their parent Signals
+    if slize.step == 1 and width(slize) == width(slize.parent):
         # Return a single-element list, after resolution
         return [_resolve_sliceable(slize.parent)]
 
     if isinstance(slize.parent, Signal):
         return [slize]  # Already all good! Just make a one-element list.
+
+    if isinstance(slize.parent, (PortRef, BundleRef)):
+        # Slice of a (by now resolved) reference: slice its referent instead
+        return _list_slice(_resolve_ref(slize.parent)[slize.index])
 
     # Do some actual work. Recursively peel off a bit at a time.
     if width(slize) == 1:
@@ -75,7 +86,7 @@ def _list_slice(slize: Slice) -> List[Slice]:
 
         if isinstance(slize.parent, Slice):
             parent = slize.parent  # Note this is also a Slice
-            return _list_slice(parent.parent[parent.bot + slize.bot])
+            return _list_slice(parent.parent[_selected(parent)[slize.bot]])
 
         if isinstance(slize.parent, Concat):
             idx = 0  # Find the `part` including our index
@@ -88,18 +99,11 @@ def _list_slice(slize: Slice) -> List[Slice]:
 
         raise TypeError(f"Invalid attempt to resolve slicing on {slize}")
 
-    # Otherwise recurse in something like a "cons" pattern, splitting between the first bit and the rest.
-    step = slize.step
-    if step < 0:  # Negative step, begin from `top`
-        first = _list_slice(slize.parent[slize.top])
-        rest = slize.parent[slize.top + step : slize.bot : step]
-        rest = _list_slice(rest)
-
-    else:  # Positive step, begin from `bot`
-        first = _list_slice(slize.parent[slize.bot])
-        rest = _list_slice(slize.parent[slize.bot + step : slize.top : step])
-
-    return first + rest
+    # Otherwise resolve one bit at a time, in the order the slice selects them.
+    rv = []
+    for idx in _selected(slize):
+        rv.extend(_list_slice(slize.parent[idx]))
+    return rv
 
 
 def _resolve_slice(slize: Slice) -> Sliceable:
